@@ -10,6 +10,7 @@
   that size their own output buffer never write outside it."
 -/
 import IgrisModel.C04.More
+import IgrisModel.C04.Lemmas3
 namespace Igris.Gstuff
 open Igris.Proto Igris.C17
 
@@ -268,8 +269,257 @@ theorem roundtrip_leg_witness :
     (lfeed (LRecv.init 3) (gstuffingLeg [0x00#8])).1.size = 2 ∧
     (lfeed (LRecv.init 3) (gstuffingLeg [0x00#8])).1.getline ≠ [0x00#8] := by decide +kernel
 
+/-- the excluded region of `roundtrip_leg_partial`, exactly: read literally ("the content handed over
+equals the payload") the clause fails for EVERY payload, not only for the witness — what `sline_getline`
+/ `sline_size` hand over after the frame of `p` is never `p` (it is one byte longer) -/
+theorem roundtrip_leg_never_payload (p : List Byte) (cap : Nat) (hcap : p.length + 2 ≤ cap) :
+    (lfeed (LRecv.init cap) (gstuffingLeg p)).1.getline ≠ p ∧
+    (lfeed (LRecv.init cap) (gstuffingLeg p)).1.size ≠ p.length := by
+  obtain ⟨ss, r', e, _, g1, g2, _, _⟩ := roundtrip_leg_partial p cap hcap
+  rw [e]
+  refine ⟨?_, by simp only [g2]; omega⟩
+  intro h
+  have := congrArg List.length h
+  rw [g1] at this
+  simp at this
+
 /-- historical: before the repair the legacy encoder wrote the CRC unescaped;
 for the payload [00] the CRC is the start marker itself -/
 theorem legacy_crc_is_marker_witness : strmcrc8 0xFF#8 [0x00#8] = legStart := by decide
+
+/-! ### round 3: C integer widths, re-used buffers, sessions on long-lived objects -/
+
+/-- the encoder INTO A RE-USED CALLER BUFFER (`gstuffing_v(vec, n, out, ctx)`, `out` holding anything —
+e.g. the previous, longer frame): for every alphabet and every buffer of at least 2n+4 bytes no store
+faults, the first L bytes are the frame, L is the value the pointer difference has, the buffer keeps
+its size and EVERY BYTE BEHIND THE FRAME KEEPS ITS VALUE -/
+theorem encoder_reused_buffer (ctx : Ctx) (pieces : List (List Byte)) (out : List Byte)
+    (h : 2 * (pieces.map List.length).sum + 4 ≤ out.length) :
+    ∃ out', gstuffingVW ctx pieces out = some (out', (gstuffingV ctx pieces).length) ∧
+      out'.take (gstuffingV ctx pieces).length = gstuffingV ctx pieces ∧ out'.length = out.length ∧
+      out'.drop (gstuffingV ctx pieces).length = out.drop (gstuffingV ctx pieces).length := by
+  have := gstuffingV_length_le ctx pieces
+  exact gstuffingVW_reused ctx pieces out (by omega)
+
+/-- the same for the legacy encoder `gstuffing_v1(data, size, out)` modelled at the level of its stores -/
+theorem encoder_reused_buffer_leg (p : List Byte) (out : List Byte) (h : 2 * p.length + 4 ≤ out.length) :
+    ∃ out', gstuffingLegW p out = some (out', (gstuffingLeg p).length) ∧
+      out'.take (gstuffingLeg p).length = gstuffingLeg p ∧ out'.length = out.length ∧
+      out'.drop (gstuffingLeg p).length = out.drop (gstuffingLeg p).length := by
+  obtain ⟨_, _, _, hl⟩ := frame_shape_leg p
+  exact gstuffingLegW_reused p out (by omega)
+
+/-- THE `int` RETURN VALUE `(int)(outdata - outstrt)`: exactly when the frame is at most INT_MAX bytes
+long the returned `int` is the frame length (L < 2^32, which 2n+4 < 2^32 guarantees) … -/
+theorem int_return_exact (L : Nat) (h : L < 2 ^ 32) : retInt L = L ↔ L < 2 ^ 31 := by
+  constructor
+  · intro e
+    by_cases hl : L < 2 ^ 31
+    · exact hl
+    · have := retInt_neg L (by omega) h
+      omega
+  · exact retInt_of_lt L
+
+/-- … which every payload of at most 2^30 - 3 bytes guarantees (2n+4 ≤ INT_MAX): below this DECIDABLE
+BOUND the return value of `gstuffing_v` / `gstuffing` is the length of the list-level frame -/
+theorem int_return_is_length (ctx : Ctx) (pieces : List (List Byte))
+    (h : 2 * (pieces.map List.length).sum + 4 < 2 ^ 31) :
+    retInt (gstuffingV ctx pieces).length = (gstuffingV ctx pieces).length := by
+  have := gstuffingV_length_le ctx pieces
+  exact retInt_of_lt _ (by omega)
+
+/-- THE SELF-SIZING OVERLOADS WITH THE C WIDTHS (`size_t` sum of the iovec lengths, `sz * 2 + 4` in
+`size_t`, the `int` result converted to `size_t sz2`, `ret.resize(sz2)`): below the same bound they
+return exactly the list-level frame, no store outside the buffer -/
+theorem encoder_buffer_writes_widths (ctx : Ctx) (pieces : List (List Byte))
+    (h : 2 * (pieces.map List.length).sum + 4 < 2 ^ 31) :
+    gstuffingVecC ctx pieces = some (gstuffingV ctx pieces) := gstuffingVecC_eq ctx pieces h
+
+-- non-vacuity of the bound: a 1 MiB payload in two pieces is below it
+example : 2 * (([List.replicate 1048000 (0#8), List.replicate 576 (0#8)] : List (List Byte)).map List.length).sum + 4
+    < 2 ^ 31 := by
+  simp only [List.map_cons, List.map_nil, List.length_replicate, List.sum_cons, List.sum_nil]; decide
+
+/-- … AND BEYOND IT NOT: for a payload of n start markers with 2^31 ≤ 2n+3 (n ≥ 2^30 - 1; the frame is
+then longer than INT_MAX whatever its CRC) the `int` return value is NEGATIVE, and the self-sizing
+overload, which converts it to `size_t` (≥ 2^63) and calls `resize`, ends in `std::length_error`
+(`none`) — all its stores were inside the buffer.  (For n = 2^30 - 2 it depends on whether the CRC needs
+escaping.)  Payloads of a gibibyte are outside what the framing is used for; recorded as an assumption
+of the check, not as a finding. -/
+theorem encoder_int_overflow_witness (ctx : Ctx) (n : Nat) (h1 : 2 ^ 31 ≤ 2 * n + 3) (h2 : 2 * n + 4 < 2 ^ 32) :
+    retInt (gstuffingV ctx [List.replicate n ctx.start]).length < 0 ∧
+    gstuffingVecC ctx [List.replicate n ctx.start] = none := by
+  have hlen := gstuffingV_length_le ctx [List.replicate n ctx.start]
+  simp only [List.map_cons, List.map_nil, List.length_replicate, List.sum_cons, List.sum_nil, Nat.add_zero] at hlen
+  have hlo := allStart_frame_length ctx n
+  exact ⟨retInt_neg _ (by omega) (by omega), gstuffingVecC_overflow ctx n h1 h2⟩
+
+-- the first n the witness applies to
+example : 2 ^ 31 ≤ 2 * (2 ^ 30 - 1) + 3 ∧ 2 * (2 ^ 30 - 1) + 4 < 2 ^ 32 := by decide
+
+/-- ENCODER CALLS ON ONE LONG-LIVED CONTEXT OBJECT ARE INDEPENDENT CALLS.  In a session (`Sess`: one
+`gstuff_context` object mutated in place, one re-used output buffer, long-lived receivers — whatever
+happened before) the result of an encoder step is a function of the CONTENTS of the context at the time
+of the call and of the payload, nothing else: two sessions in arbitrary states that agree on the context
+contents produce the same `int` and the same frame, namely those of the list-level `gstuffingV`.  This
+is what justifies modelling a sequence of calls as independent calls (and what the seeded change
+`C04-escape-table-cached-by-ctx-address` — a table cached by the ADDRESS of the context — violates). -/
+theorem encode_depends_only_on_contents (s1 s2 : Sess) (pieces : List (List Byte)) (hc : s1.ctx = s2.ctx)
+    (h1 : 2 * (pieces.map List.length).sum + 4 ≤ s1.out.length)
+    (h2 : 2 * (pieces.map List.length).sum + 4 ≤ s2.out.length) :
+    (s1.step (.enc pieces)).2 = (s2.step (.enc pieces)).2 ∧
+    (s1.step (.enc pieces)).2 =
+      .frame (retInt (gstuffingV s1.ctx pieces).length) (gstuffingV s1.ctx pieces) ∧
+    (s1.step (.enc pieces)).1.frame = gstuffingV s1.ctx pieces := by
+  have l1 := gstuffingV_length_le s1.ctx pieces
+  have l2 := gstuffingV_length_le s2.ctx pieces
+  obtain ⟨o1, e1, _, _⟩ := sess_enc s1 pieces (by omega)
+  obtain ⟨o2, e2, _, _⟩ := sess_enc s2 pieces (by omega)
+  rw [e1, e2, hc]; exact ⟨rfl, rfl, rfl⟩
+
+/-- ROUND TRIP IN A SESSION, with the alphabet current at the call: from ANY session state (any
+history of encoder calls, context mutations, receiver calls, stale buffer contents), overwriting the
+context object with any well-formed alphabet `A`, encoding any pieces into the re-used buffer,
+re-constructing the receiver object from the context, `init(blk, cap)` with n + 2 ≤ cap ≤ |blk| and
+feeding the frame answers CONTINUE … CONTINUE NEWPACKAGE and hands over exactly the payload -/
+theorem session_roundtrip (s : Sess) (A : Ctx) (hA : A.WF) (pieces : List (List Byte)) (cap : Nat)
+    (hfit : 2 * (pieces.map List.length).sum + 4 ≤ s.out.length)
+    (hcap : pieces.flatten.length + 2 ≤ cap) (hcap32 : cap < 2 ^ 32)
+    (hblk : cap ≤ (if s.att then s.recv.line.buf else s.blk).length) :
+    (Sess.run s [.setCtx A, .enc pieces, .rnew, .rinit cap, .feed none]).2 =
+      [.unit, .frame (retInt (gstuffingV A pieces).length) (gstuffingV A pieces), .unit, .unit,
+       .trace (List.replicate ((gstuffingV A pieces).length - 1) CONTINUE ++ [NEWPACKAGE]) [pieces.flatten]] := by
+  have l1 := gstuffingV_length_le A pieces
+  obtain ⟨o1, e1, _, _⟩ := sess_enc { s with ctx := A } pieces (by simp only; omega)
+  -- the receiver after `recv = gstuff_autorecv(ctx); recv.init(blk, cap)`
+  generalize hb : (if s.att then s.recv.line.buf else s.blk) = blk0 at hblk
+  have hcapN : (BitVec.ofNat 32 cap).toNat = cap := by
+    simp only [BitVec.toNat_ofNat]; exact Nat.mod_eq_of_lt hcap32
+  have hok : SlineOK (BRecv.init blk0 (BitVec.ofNat 32 cap)).line :=
+    ⟨rfl, by simp only [BRecv.init, Sline.init, hcapN]; exact hblk, by simp [BRecv.init, Sline.init]⟩
+  have habs : (BRecv.init blk0 (BitVec.ofNat 32 cap)).abs = Recv.init cap := by
+    simp [BRecv.abs, BRecv.init, Sline.init, Sline.bytes, Recv.init, hcapN]
+  obtain ⟨r', f1, _, _, _⟩ := bfeedS_eq A (BRecv.init blk0 (BitVec.ofNat 32 cap)) hok
+    (by simp only [BRecv.init, Sline.init, hcapN]; omega) (gstuffingV A pieces)
+  rw [habs] at f1
+  -- what the list-level receiver answers
+  obtain ⟨ss, g1, g2⟩ := roundtrip_iovec A hA pieces (Recv.init cap) (Or.inl rfl) hcap
+  have hd := (decode_gstuffing_v A hA pieces cap hcap).1
+  have hl : ss.length = (gstuffingV A pieces).length - 1 := by
+    have := feed_length A (Recv.init cap) (gstuffingV A pieces)
+    rw [g1] at this
+    simp only [List.length_append, List.length_cons, List.length_nil] at this
+    omega
+  have hss : (feed A (Recv.init cap) (gstuffingV A pieces)).2 =
+      List.replicate ((gstuffingV A pieces).length - 1) CONTINUE ++ [NEWPACKAGE] := by
+    rw [g1, ← hl, ← allCont_eq_replicate g2]
+  simp only [decode] at hd
+  rw [hss, hd] at f1
+  simp only [Sess.step] at e1
+  obtain ⟨x, hx⟩ : ∃ x, gstuffingVW A pieces s.out = some x := by
+    cases hg : gstuffingVW A pieces s.out with
+    | none => rw [hg] at e1; simp at e1
+    | some x => exact ⟨x, rfl⟩
+  rw [hx] at e1
+  simp only [Prod.mk.injEq, SOut.frame.injEq] at e1
+  simp only [Sess.run, Sess.step, hx, hb, Option.getD_none, if_false, Bool.false_eq_true, e1.2.2, f1]
+  rw [e1.2.1]
+
+-- non-vacuity: the session right after its start, the v0 alphabet, 2 pieces, capacity 5
+example : Ctx.v0.WF ∧ 2 * (([[0xAC#8], [0x41#8]] : List (List Byte)).map List.length).sum + 4 ≤ (Sess.start 16 8).out.length ∧
+    ([[0xAC#8], [0x41#8]] : List (List Byte)).flatten.length + 2 ≤ 5 ∧
+    5 ≤ (if (Sess.start 16 8).att then (Sess.start 16 8).recv.line.buf else (Sess.start 16 8).blk).length := by decide
+
+/-- RECEIVER CALLS ON ONE LONG-LIVED RECEIVER OBJECT: whatever the session did before (frames, garbage,
+half a frame, `reset()`, another alphabet, stale bytes in the receive block), after the receiver object is
+re-constructed from the context and given a buffer (`init(blk, cap)`, 1 ≤ cap ≤ |blk|), what it answers to a
+byte string and what it hands over depends only on (context CONTENTS at the re-construction, cap, the bytes):
+it is the list-level receiver started from `Recv.init cap`, to which every theorem of C05 applies -/
+theorem receiver_depends_only_on_contents (s1 s2 : Sess) (bs : List Byte) (cap : Nat) (hc : s1.ctx = s2.ctx)
+    (hcap : 1 ≤ cap) (hcap32 : cap < 2 ^ 32)
+    (hb1 : cap ≤ (if s1.att then s1.recv.line.buf else s1.blk).length)
+    (hb2 : cap ≤ (if s2.att then s2.recv.line.buf else s2.blk).length) :
+    (Sess.run s1 [.rnew, .rinit cap, .feed (some bs)]).2 = (Sess.run s2 [.rnew, .rinit cap, .feed (some bs)]).2 ∧
+    (Sess.run s1 [.rnew, .rinit cap, .feed (some bs)]).2 =
+      [.unit, .unit, .trace (feed s1.ctx (Recv.init cap) bs).2 (feedTrace s1.ctx (Recv.init cap) bs).2] := by
+  have hcapN : (BitVec.ofNat 32 cap).toNat = cap := by
+    simp only [BitVec.toNat_ofNat]; exact Nat.mod_eq_of_lt hcap32
+  have key : ∀ s : Sess, cap ≤ (if s.att then s.recv.line.buf else s.blk).length →
+      (Sess.run s [.rnew, .rinit cap, .feed (some bs)]).2 =
+        [.unit, .unit, .trace (feed s.ctx (Recv.init cap) bs).2 (feedTrace s.ctx (Recv.init cap) bs).2] := by
+    intro s hblk
+    generalize hb : (if s.att then s.recv.line.buf else s.blk) = blk0 at hblk
+    have hok : SlineOK (BRecv.init blk0 (BitVec.ofNat 32 cap)).line :=
+      ⟨rfl, by simp only [BRecv.init, Sline.init, hcapN]; exact hblk, by simp [BRecv.init, Sline.init]⟩
+    have habs : (BRecv.init blk0 (BitVec.ofNat 32 cap)).abs = Recv.init cap := by
+      simp [BRecv.abs, BRecv.init, Sline.init, Sline.bytes, Recv.init, hcapN]
+    obtain ⟨r', f1, _, _, _⟩ := bfeedS_eq s.ctx (BRecv.init blk0 (BitVec.ofNat 32 cap)) hok
+      (by simp only [BRecv.init, Sline.init, hcapN]; omega) bs
+    rw [habs] at f1
+    simp only [Sess.run, Sess.step, hb, Option.getD_some, if_false, Bool.false_eq_true, f1]
+  rw [key s1 hb1, key s2 hb2, hc]
+  exact ⟨rfl, rfl⟩
+
+-- non-vacuity: two different session states with the same context contents
+example : (Sess.start 16 8).ctx = ((Sess.start 32 8).step (.enc [[0x41#8]])).1.ctx ∧ (1 : Nat) ≤ 4 ∧
+    4 ≤ (if (Sess.start 16 8).att then (Sess.start 16 8).recv.line.buf else (Sess.start 16 8).blk).length := by decide
+
+/-- LEGACY ROUND TRIP IN A SESSION: from any session state, `gstuffing_v1` into the re-used buffer,
+`setbuf_v1(lblk, cap)` on the long-lived legacy struct (n + 2 ≤ cap ≤ |lblk|), feed: the `int` returned is the
+frame length, the answers are `C…CN`, the packet (line minus its CRC byte) is the payload -/
+theorem session_roundtrip_leg (s : Sess) (p : List Byte) (cap : Nat)
+    (hfit : 2 * p.length + 4 ≤ s.out.length)
+    (hcap : p.length + 2 ≤ cap) (hcap32 : cap < 2 ^ 32)
+    (hblk : cap ≤ (if s.latt then s.lrecv.line.buf else s.lblk).length) :
+    (Sess.run s [.encLeg p, .lsetbuf cap, .lfeed none]).2 =
+      [.frame (retInt (gstuffingLeg p).length) (gstuffingLeg p), .unit,
+       .trace (List.replicate ((gstuffingLeg p).length - 1) CONTINUE ++ [NEWPACKAGE]) [p]] := by
+  obtain ⟨o1, e1, e2, _, _⟩ := encoder_reused_buffer_leg p s.out hfit
+  generalize hb : (if s.latt then s.lrecv.line.buf else s.lblk) = blk0 at hblk
+  have hcapN : (BitVec.ofNat 32 cap).toNat = cap := by
+    simp only [BitVec.toNat_ofNat]; exact Nat.mod_eq_of_lt hcap32
+  have hok : SlineOK (BLRecv.init blk0 (BitVec.ofNat 32 cap)).line :=
+    ⟨rfl, by simp only [BLRecv.init, Sline.init, hcapN]; exact hblk, by simp [BLRecv.init, Sline.init]⟩
+  have habs : (BLRecv.init blk0 (BitVec.ofNat 32 cap)).abs = LRecv.init cap := by
+    simp [BLRecv.abs, BLRecv.init, Sline.init, Sline.bytes, LRecv.init, hcapN]
+  obtain ⟨r', f1, _, _, _⟩ := blfeedS_eq (BLRecv.init blk0 (BitVec.ofNat 32 cap)) hok
+    (by simp only [BLRecv.init, Sline.init, hcapN]; omega) (gstuffingLeg p)
+  rw [habs] at f1
+  obtain ⟨ss, r1, g1, g2, _, _, _, g6⟩ := roundtrip_leg_partial p cap hcap
+  have hl : ss.length = (gstuffingLeg p).length - 1 := by
+    have := lfeed_length (LRecv.init cap) (gstuffingLeg p)
+    rw [g1] at this
+    simp only [List.length_append, List.length_cons, List.length_nil] at this
+    omega
+  have hss : (lfeed (LRecv.init cap) (gstuffingLeg p)).2 =
+      List.replicate ((gstuffingLeg p).length - 1) CONTINUE ++ [NEWPACKAGE] := by
+    rw [g1, ← hl, ← allCont_eq_replicate g2]
+  rw [hss, g6] at f1
+  simp only [Sess.run, Sess.step, e1, e2, hb, Option.getD_none, f1]
+
+-- non-vacuity
+example : 2 * ([0xAC#8, 0x41#8] : List Byte).length + 4 ≤ (Sess.start 16 8).out.length ∧ ([0xAC#8, 0x41#8] : List Byte).length + 2 ≤ 5 ∧
+    5 ≤ (if (Sess.start 16 8).latt then (Sess.start 16 8).lrecv.line.buf else (Sess.start 16 8).lblk).length := by decide
+
+/-- THE LINEAR-TIME FORMS THE DRIVER RUNS ON THE ≥ 300 KiB INPUTS ARE THE MODEL: `encodeLin` is
+`gstuffingV` on one piece, `encodeLegLin` is `gstuffingLeg`; the receivers with the line kept reversed
+and its length cached (`feedR`, `lfeedR`) compute, from any state, the number of CONTINUE answers, the
+other answers in order and the packets (newest first) of `feed` / `feedTrace`, `lfeed` / `lfeedTrace` -/
+theorem driver_linear_forms (ctx : Ctx) (p s : List Byte) (cap : Nat) :
+    encodeLin ctx p = gstuffingV ctx [p] ∧ encodeLegLin p = gstuffingLeg p ∧
+    (feedR ctx (RecvR.init cap) s 0 [] []).2.1 = ((feed ctx (Recv.init cap) s).2.filter (· = CONTINUE)).length ∧
+    (feedR ctx (RecvR.init cap) s 0 [] []).2.2.1 = (feed ctx (Recv.init cap) s).2.filter (· ≠ CONTINUE) ∧
+    (feedR ctx (RecvR.init cap) s 0 [] []).2.2.2 = (feedTrace ctx (Recv.init cap) s).2.reverse ∧
+    (lfeedR (LRecvR.init cap) s 0 [] []).2.1 = ((lfeed (LRecv.init cap) s).2.filter (· = CONTINUE)).length ∧
+    (lfeedR (LRecvR.init cap) s 0 [] []).2.2.1 = (lfeed (LRecv.init cap) s).2.filter (· ≠ CONTINUE) ∧
+    (lfeedR (LRecvR.init cap) s 0 [] []).2.2.2 = (lfeedTrace (LRecv.init cap) s).2.reverse := by
+  obtain ⟨_, a2, a3, a4⟩ := feedR_eq ctx (RecvR.init cap) rfl s 0 [] []
+  obtain ⟨_, b2, b3, b4⟩ := lfeedR_eq (LRecvR.init cap) rfl s 0 [] []
+  have ha : (RecvR.init cap).abs = Recv.init cap := rfl
+  have hb : (LRecvR.init cap).abs = LRecv.init cap := rfl
+  rw [ha] at a2 a3 a4
+  rw [hb] at b2 b3 b4
+  exact ⟨encodeLin_eq ctx p, encodeLegLin_eq p, by simpa using a2, by simpa using a3, by simpa using a4,
+    by simpa using b2, by simpa using b3, by simpa using b4⟩
 
 end Igris.Gstuff
